@@ -1,4 +1,5 @@
 import Mimium.Model.Core
+import Mimium.Proofs.MirExample
 import Mimium.Props.C05
 import Mimium.Proofs.CoreSoundMachine
 import Mimium.Proofs.CoreCheckComplete
@@ -434,4 +435,22 @@ theorem C03_mir_wf_program_no_stuck (P : Prog) (hwf : wfProg P = true) (fuel : N
   exact ⟨fun sr r h => (hinit sr _ h).1 r rfl, fun sr b h => (hinit sr _ h).2 b rfl,
          fun m now inputs r h => (hstep m now inputs _ h).1 r rfl, fun m now inputs b h => (hstep m now inputs _ h).2 b rfl⟩
 
+
+/-! ### non-vacuity on a real dump (`Proofs/MirExample.lean`), kernel-evaluated -/
+
+/-- both example programs are well formed (the F3 program too: its defect is the state cursor, not a register) -/
+example : wfProg exProg = true ∧ wfProg exStateInArms = true := by decide +kernel
+
+/-- hence neither its global initialisation nor any sample can end on an undefined register or a bad block -/
+example (fuel : Nat) (m : Machine) (now : UInt64) (inputs : List UInt64) (r : Nat) :
+    Machine.step fuel exProg m now inputs ≠ .error (.undefReg r) :=
+  (C03_mir_wf_program_no_stuck exProg (by decide +kernel) fuel).2.2.1 m now inputs r
+
+/-- a use before the definition is rejected: `dsp` of the example with its first `load` removed reads register 1 undefined -/
+example :
+    wfFn exProg (Fn.build "bad" none [1] [] (.fn []) 4 1 [[.bin .addf 2 (.reg 1) (.reg 0), .ret (.reg 2) 1]])
+      (inferWf (Fn.build "bad" none [1] [] (.fn []) 4 1 [[.bin .addf 2 (.reg 1) (.reg 0), .ret (.reg 2) 1]])) = false ∧
+    wfFn exProg (Fn.build "good" none [1] [] (.fn []) 4 1 [[.load 1 (.reg 0) 1, .bin .addf 2 (.reg 1) (.reg 0), .ret (.reg 2) 1]])
+      (inferWf (Fn.build "good" none [1] [] (.fn []) 4 1 [[.load 1 (.reg 0) 1, .bin .addf 2 (.reg 1) (.reg 0), .ret (.reg 2) 1]])) = true := by
+  decide +kernel
 end Mimium.Mir
